@@ -43,3 +43,10 @@ func (h *RetryBound) Init() error {
 	}
 	return nil
 }
+
+// MapperStruct: the same struct decoded by its yaml names (default) or, with the mapper argument, by
+// another tag's names.
+type MapperStruct struct {
+	Host string `yaml:"host-y" json:"host-j"`
+	Port int    `yaml:"port-y" json:"port-j"`
+}
